@@ -99,6 +99,9 @@ def make(max_packet, buffer_size, epnum):
         c.set_next(had_bytes, z3.If(new_packet, bvc(0, 1), z3.If(is_open, bvc(1, 1), had_bytes)))
         c.set_next(pkt_committed, z3.If(new_packet, bvc(0, 1), z3.If(commit_ev, bvc(1, 1), pkt_committed)))
 
+        tok_since = g("token_since_last_packet", 1)
+        c.set_next(tok_since, z3.If(new_token, bvc(1, 1), z3.If(new_packet, bvc(0, 1), tok_since)))
+
         # ------------------------------------------------------------ environment
         busy = z3.Or(valid, rx.pv == 1, rx.in_data_phase, awaiting == 1)
         c.require("token_flags_decode_pid", z3.And((I["is_out"] == 1) == (I["pid"] == PID_OUT),
@@ -111,6 +114,9 @@ def make(max_packet, buffer_size, epnum):
                       "CRC-valid packet), never after a corrupted one")
         c.require("no_packet_while_response_pending", z3.Implies(valid, awaiting == 0),
                   why="USBDataPacketReceiver ignores the bus during INTERPACKET_DELAY; the host waits for the handshake")
+        c.require("data_packet_follows_its_own_token", z3.Implies(z3.And(new_packet, tgt), tok_since == 1),
+                  why="OUT transactions: every data packet addressed to this endpoint is preceded by its own OUT token (new_token) "
+                      "— this is what makes 'cleared by the next token' mean 'per packet' in the spec model")
         c.require("transaction_not_disturbed",
                   z3.Implies(busy, z3.And(I["pid"] == l_pid, I["ep"] == l_ep, I["rx_tog"] == l_rxtog,
                                           z3.Not(new_token), z3.Not(clr_me))),
@@ -156,11 +162,12 @@ def make(max_packet, buffer_size, epnum):
             clause="NAKs when it cannot take a whole packet (a byte of the packet found the buffer full; PING: less than a max "
                    "packet of room); no NAK at any other time")
         ens("acked_new_packet_is_delivered",
-            z3.Implies(ack_new, z3.Or(had_bytes == 0, pkt_committed == 1, commit_ev, z3.And(closing, c.nx(commit_ev)))),
+            z3.Implies(z3.And(O["ack"] == 1, data_resp, match),
+                       z3.And(z3.Not(lost_now), z3.Or(had_bytes == 0, pkt_committed == 1, commit_ev, z3.And(closing, c.nx(commit_ev))))),
             clause="the endpoint ACKs a packet only if its payload has been delivered (committed to the output queue by the "
                    "cycle after the ACK decision; zero-length packets have nothing to deliver)")
         ens("naked_packet_contributes_nothing",
-            z3.Implies(nak_data, z3.And(pkt_committed == 0, z3.Not(commit_ev), z3.Not(c.nx(commit_ev)))),
+            z3.Implies(z3.And(O["nak"] == 1, data_resp), z3.And(pkt_committed == 0, z3.Not(commit_ev), z3.Not(c.nx(commit_ev)))),
             clause="NAKed packets contribute nothing")
         ens("corrupted_packet_contributes_nothing",
             z3.Implies(z3.And(strobe, rx.st_i == 1), z3.And(c.nx(q.n_c) == q.n_c, c.nx(q.n_p) == 0)),
@@ -187,8 +194,8 @@ def make(max_packet, buffer_size, epnum):
             clause="retransmissions with a repeated data toggle: the expected toggle advances exactly when new data is ACKed")
 
         # ------------------------------------------------------------ covers
-        small = max_packet <= 4
-        cov = c.cover if small else (lambda n, e: c.cover(n, e, reach=False))    # big buffers: too deep for BMC from reset
+        small = max_packet <= 2
+        cov = c.cover if small else (lambda n, e: c.cover(n, e, reach=False))    # bigger buffers: deep for BMC from reset
         cov("ack_new_data", ack_new)
         cov("ack_repeated_toggle", ack_repeat)
         cov("nak_overflow", nak_data)
@@ -206,6 +213,7 @@ def make(max_packet, buffer_size, epnum):
         cov("packet_for_other_endpoint", z3.And(pb, z3.Not(tgt)))
         c.cover_depth = 12 + 6 * max_packet if small else None
         c.bmc_depth = max(c.bmc_depth, 40)
+        c.timeout_s = max(c.timeout_s, 240)      # generous: the cover BMC takes ~5 s alone but shares cores with the obligations
     return contract
 
 
